@@ -178,6 +178,12 @@ func (x *Exec) merge(ins []*State) *State {
 	}
 	sort.Strings(ks)
 	for _, k := range ks {
+		if kind, _ := compSortKey(k); kind == "H" {
+			if t, ok := x.mergeStores(ins, k); ok {
+				out.Comp[k] = t
+				continue
+			}
+		}
 		t := x.get(ins[len(ins)-1], k)
 		same := true
 		for i := len(ins) - 2; i >= 0; i-- {
@@ -194,6 +200,96 @@ func (x *Exec) merge(ins []*State) *State {
 		}
 	}
 	return out
+}
+
+// storeChain: the chain of (loc, val) stores leading from an ancestor to h, newest first, and the list of
+// array names passed on the way (h itself first).
+type storeStep struct{ loc, val string }
+
+func storeChainOf(h string) (names []string, steps []storeStep) {
+	for i := 0; i < 200; i++ {
+		names = append(names, h)
+		d, ok := activeDefs[h]
+		if !ok || !strings.HasPrefix(d, "(store ") {
+			return
+		}
+		parts := splitTop(d[len("(store ") : len(d)-1])
+		if len(parts) != 3 {
+			return
+		}
+		steps = append(steps, storeStep{parts[1], parts[2]})
+		h = parts[0]
+	}
+	return
+}
+
+// mergeStores merges heap component k of several states without an array-valued ite (which z3 handles
+// badly): when all inputs are store chains over a common ancestor A, the result is A followed by every
+// input's stores, each guarded by that input's reach condition:  store(H, l, ite(R_i, v, H[l])).
+// Exactly one R_i holds on any execution, so the guarded stores of the others are identities.
+func (x *Exec) mergeStores(ins []*State, k string) (string, bool) {
+	type chain struct {
+		names []string
+		steps []storeStep
+	}
+	var cs []chain
+	allSame := true
+	first := x.get(ins[0], k)
+	for _, s := range ins {
+		h := x.get(s, k)
+		if h != first {
+			allSame = false
+		}
+		n, st := storeChainOf(h)
+		cs = append(cs, chain{n, st})
+	}
+	if allSame {
+		return first, true
+	}
+	// deepest common ancestor: first name of chain 0 that occurs in all chains
+	anc := ""
+	var cut []int
+	for i0, n0 := range cs[0].names {
+		idx := []int{i0}
+		ok := true
+		for _, c := range cs[1:] {
+			f := -1
+			for j, n := range c.names {
+				if n == n0 {
+					f = j
+					break
+				}
+			}
+			if f < 0 {
+				ok = false
+				break
+			}
+			idx = append(idx, f)
+		}
+		if ok {
+			anc, cut = n0, idx
+			break
+		}
+	}
+	if anc == "" {
+		return "", false
+	}
+	total := 0
+	for _, c := range cut {
+		total += c
+	}
+	if total > 96 {
+		return "", false
+	}
+	sortS := x.compSort(k)
+	h := anc
+	for i, c := range cs {
+		for j := cut[i] - 1; j >= 0; j-- {
+			st := c.steps[j]
+			h = x.c.define(mangle(k)+"_m", sortS, sx("store", h, st.loc, ite(ins[i].Reach, st.val, sx("select", h, st.loc))))
+		}
+	}
+	return h, true
 }
 
 func (x *Exec) mergeVals(ins []*State, vals []string, sort string) string {
@@ -439,8 +535,13 @@ func (x *Exec) assumeAllocated(st *State, t types.Type, v string) {
 
 func (x *Exec) sliceWF(v string) string {
 	z := x.c.idx(0)
-	return and(x.leIdx(z, sx("sl_off", v)), x.leIdx(z, sx("sl_len", v)), x.leIdx(sx("sl_len", v), sx("sl_cap", v)),
+	wf := and(x.leIdx(z, sx("sl_off", v)), x.leIdx(z, sx("sl_len", v)), x.leIdx(sx("sl_len", v), sx("sl_cap", v)),
 		implies(eq(sx("sl_arr", v), "nil"), eq(sx("sl_cap", v), z)))
+	if !x.c.Int {
+		// offsets and capacities of real slices are far below 2^60: index arithmetic does not wrap
+		wf = and(wf, x.leIdx(sx("sl_off", v), "#x0fffffffffffffff"), x.leIdx(sx("sl_cap", v), "#x0fffffffffffffff"))
+	}
+	return wf
 }
 
 // ---- obligations -------------------------------------------------------------------------------
